@@ -23,7 +23,7 @@ package rosmar
 //@ template mutator
 //@   ensures [C01:$fn.err-unchanged]   err != nil ==> db == old(db)
 //@   ensures [C08:$fn.err-noevent]     err != nil ==> lenlist(posted) == 0
-//@   ensures [C05:$fn.docinv]          DocInv(r2)
+//@   ensures [C05,C06:$fn.docinv]          DocInv(r2)
 //@   ensures [C11:$fn.frame]           forall o: DocId :: o != mkId(c.id, key) ==> docAt(o) == old(docAt(o))
 //@   ensures [C11:$fn.scoped]          stmtsScoped(c.id)
 //@   ensures [C03,C10:$fn.onetxn]      oneTxn() && sqlAllInTxn() && lockedThroughout("c.bucket.mutex")
@@ -165,7 +165,7 @@ package rosmar
 //@   ensures [C06:WriteCas.insert-only-if] err == nil && ins ==> !hasBody(r)
 //@   ensures [C06:WriteCas.insert-refused] ins && hasBody(r) ==> err != nil && db == old(db)
 //@   ensures [C06:WriteCas.insert-creates] ins && !hasBody(r) && !(bit(opt, 2) && cas != 0 && !r.present) ==> err == nil || isdberr(err) || isclosed(err) || count("begin") == 0
-//@   ensures [C01,C05,C07,C14:WriteCas.body-stored] err == nil && !bit(opt, 16) && !isnull(raw) ==> sameDoc(r2, BODY(r, raw, wcJSON(opt, raw), absexp(exp, now), newCas))
+//@   ensures [C01,C05,C06,C07,C14:WriteCas.body-stored] err == nil && !bit(opt, 16) && !isnull(raw) ==> sameDoc(r2, BODY(r, raw, wcJSON(opt, raw), absexp(exp, now), newCas))
 //@   ensures [C01,C05:WriteCas.delete]     err == nil && !bit(opt, 16) && isnull(raw) && r.present ==> isnull(r2.value) && r2.tombstone == 1 && r2.cas == newCas
 //@   ensures [C01,C07:WriteCas.append]     err == nil && bit(opt, 16) && hasBody(r) && !isnull(raw) ==> r2.value == concat(r.value, raw) && r2.xattrs == r.xattrs && r2.exp == absexp(exp, now) && r2.tombstone == 0
 //@   ensures [C01:WriteCas.casout]         err == nil ==> casOut == newCas
